@@ -214,7 +214,8 @@ UNITS["prove"] = {
 UNITS["commit"] = {
     "prelude": PRELUDE_ALL,
     "contracts": ["ctors.vc", "gens.vc", "commit.vc"],
-    "pieces": types() + [text("spec/spec_wf.rs"), text("spec/spec_prove.rs"), with_fns(PC_COMMIT, fns=["commit"])],
+    "pieces": types() + RPT_ITEMS + [text("spec/tproto_trait.rs"), text("spec/sproto_trait.rs"), text("spec/spec_transcript.rs"), text("spec/spec_mask.rs"),
+                                     text("spec/spec_wf.rs"), text("spec/spec_verify.rs"), text("spec/spec_prove.rs"), with_fns(PC_COMMIT, fns=["commit"])],
     "safety": {"*": ["C17", "C06"]},
 }
 
